@@ -206,9 +206,9 @@ def check_case(case):
                         raise
                     res.add(viol('apply_invalid_set_wrong_exception', f'{type(e).__name__}: {e}',
                                  sig=f'apply_invalid_set_wrong_exception:{exc_sig(e)}', data=dict(d0, msg=str(e)[:300])))
-            if len(res.violations) > 4:
+            if len(res.violations) > 40:
                 break
-        if len(res.violations) > 4:
+        if len(res.violations) > 40:
             break
 
     # processor level
